@@ -52,6 +52,10 @@ type mwDeployConf struct {
 	// values share a long prefix) instead of first
 	CustomRSLen     int  `json:"custom_relay_state_len,omitempty"`
 	CustomRSOwnLast bool `json:"custom_relay_state_own_part_last,omitempty"`
+	// CustomRSValues (with CustomRS): the application's own correlation tokens - the n-th call of the relay-state function returns the
+	// n-th of them (after the last: "custom-rs-<n>" as before). The plan writes them out, so they may be made of any characters a
+	// cookie name may be made of, and may look like encodings of one another; to the middleware and the IdP they are opaque
+	CustomRSValues []string `json:"custom_relay_state_values,omitempty"`
 }
 
 // mwResolver is the IdP's artifact resolution service as the SP's HTTP client sees it: the artifact's message handle names
@@ -192,6 +196,9 @@ func newMWDeploy(c mwDeployConf, idpMD *saml.EntityDescriptor, gateAttr, gateVal
 		opts.RelayStateFunc = func(http.ResponseWriter, *http.Request) string {
 			d.rsCount++
 			own := fmt.Sprintf("custom-rs-%d", d.rsCount)
+			if d.rsCount <= len(c.CustomRSValues) {
+				own = c.CustomRSValues[d.rsCount-1]
+			}
 			if pad := c.CustomRSLen - len(own); pad > 0 {
 				if c.CustomRSOwnLast {
 					return strings.Repeat("t", pad-1) + "-" + own
